@@ -33,6 +33,9 @@ pub fn op(req: &Value) -> Value {
                 m.insert(k.to_string(), json!(v));
             }
             m.insert("string_value_10".into(), json!(ha::string_value_size(&rt, 10)));
+            for (k, v) in ha::size_constants2() {
+                m.insert(k.to_string(), json!(v));
+            }
             Value::Object(m)
         }
         "trace" => {
@@ -92,6 +95,34 @@ pub fn op(req: &Value) -> Value {
                 }
             }
             json!({"steps": steps, "size_before_cleanup": before, "size_final": hooks::stats_size(&rt)})
+        }
+        "sizes" => {
+            // {"op":"alloc","f":"sizes","src":…,"names":[…],"limit":L}: XValue::size (and static / dyn part of natives)
+            // of top-level bindings of a program run under a size limit, plus the accounted total
+            let src = req["src"].as_str().unwrap_or("");
+            let comp = match crate::run::compile(src) {
+                Ok(c) => c,
+                Err(e) => return json!({ "compile": e }),
+            };
+            let eval = match xray::root_runtime_scope::RootEvaluationScope::from_compilation_scope(&comp, rt.clone()) {
+                Ok(e) => e,
+                Err(e) => return json!({"compile": "ok", "inst": {"viol": format!("{e:?}")}}),
+            };
+            let mut m = serde_json::Map::new();
+            let empty = vec![];
+            for n in req["names"].as_array().unwrap_or(&empty) {
+                let n = n.as_str().unwrap_or("");
+                let v = match eval.get_value(n) {
+                    Ok(v) => match ha::value_size_parts(v) {
+                        Some((size, Some((st, dy)))) => json!({"size": size, "static": st, "dyn": dy}),
+                        Some((size, None)) => json!({ "size": size }),
+                        None => json!("error-value"),
+                    },
+                    Err(_) => json!("notfound"),
+                };
+                m.insert(n.to_string(), v);
+            }
+            json!({"compile": "ok", "inst": "ok", "accounted": hooks::stats_size(&rt), "values": m})
         }
         _ => json!({"bad-op": true}),
     }
